@@ -13,7 +13,7 @@ from dataclasses import dataclass, field
 
 NAMES = ["a", "b", "c", "pname", "version", "src", "meta", "foo"]
 SCALARS = ['1', '2', '42', 'true', 'false', 'null', '"1.0"', '"hello"', '"a b"', './x', '[ ]', '[ 1 2 ]', '"${x}y"', 'x.y', 'f 1', '1 + 2', '(-1)', '0.5', '[ "a" ]', '{ }']
-LEAF_VALUES = ['1', '2', '7', 'true', 'null', '"s"', '"1.2.3"', './p', '[ 1 ]', 'pkgs.hello', 'f x', '1 + 1']
+LEAF_VALUES = ['1', '2', '7', 'true', 'null', '"s"', '"1.2.3"', './p', '[ 1 ]', 'pkgs.hello', 'f x', '1 + 1', 'unboundName', 'fetchFromGitHub']
 
 
 @dataclass
